@@ -77,6 +77,9 @@ def make_file(rng, path, n_curves):
     return specs
 
 
+NKW = 10       # number of fit variants in fitted_curve
+
+
 def fitted_curve(rng, path, enum, variant=0):
     """load curve `enum` of `path`, preprocess and fit (variant selects the
     fit settings)"""
@@ -100,7 +103,10 @@ def fitted_curve(rng, path, enum, variant=0):
            # unsuccessful fit (no points in range): all-NaN fit column
            dict(model_key="hertz_para", range_x=[1e-3, 1.001e-3]),
            # numerically equivalent to variant 0 (other optimiser tolerance)
-           dict(model_key="hertz_para", method_kws={"ftol": 1e-10})]
+           dict(model_key="hertz_para", method_kws={"ftol": 1e-10}),
+           # half-open intervals (infinite bounds are legal)
+           dict(model_key="hertz_para", range_x=(-np.inf, 2e-7)),
+           dict(model_key="hertz_para", range_x=[-1e-6, np.inf])]
     kw = kws[variant % len(kws)]
     try:
         idnt.fit_model(**copy.deepcopy(kw))
@@ -255,11 +261,11 @@ def sequence(rec, rng, cid, scratch):
         elif key in stored:
             op = "different-fit"
             variant = stored[key][0] + int(rng.integers(1, 8))
-            if stored[key][0] % 8 == 0 and rng.random() < .4:
+            if stored[key][0] % NKW == 0 and rng.random() < .4:
                 variant = 7       # numerically equivalent refit
         else:
             op = "new"
-            variant = int(rng.integers(8))
+            variant = int(rng.integers(NKW))
         idnt, kw, pipe = fitted_curve(rng, path, enum, variant)
         case = {"id": cid, "kind": "sequence",
                 "history": hist + [[op, path.name, enum, kw, pipe]]}
@@ -368,7 +374,7 @@ def folder_load(rec, rng, cid, scratch, h5path, stored, hist):
     for key in list(stored)[:2]:
         variant = stored[key][0]
         v2 = [0, 1, 2, 3][(variant + 1 + int(rng.integers(3))) % 4]
-        if v2 == variant % 8:
+        if v2 == variant % NKW:
             v2 = (v2 + 1) % 4
         idnt, kw, pipe = fitted_curve(rng, pathlib.Path(key[0]), key[1], v2)
         if save(b, idnt, (5, "other", "second container")) == "ok":
